@@ -84,6 +84,8 @@ CATALOGUE = {
     "ladder3x": [(0, 1), (1, 2), (2, 3), (4, 5), (5, 6), (6, 7), (0, 4), (1, 5), (2, 6), (3, 7)],   # rails + 4 rungs, 3 loops
     "bubble_chain3": [(0, 1), (0, 1), (1, 2), (1, 2), (2, 3), (2, 3)],
     "hexagon_doubled": [(0, 1), (0, 1), (1, 2), (2, 3), (3, 4), (4, 5), (5, 0)],
+    "banana6": [(0, 1)] * 6,
+    "pentagon": [(0, 1), (1, 2), (2, 3), (3, 4), (4, 0)],
     "sunrise_tadpole": [(0, 1), (0, 1), (0, 1), (1, 1)],
 }
 
@@ -118,6 +120,14 @@ def relabel(rng, edges, extra_vertices=0):
     """map vertex slots to random distinct u8 labels; returns (edges, labels of slots, unused labels)"""
     nv = max(max(e) for e in edges) + 1
     labels = rng.sample(range(256), nv + extra_vertices)
+    if nv >= 2 and rng.random() < 0.3:
+        # labels that collide modulo 128 / 64 (bit-mask or narrow-integer vertex sets would alias them)
+        base = rng.randrange(0, 64)
+        pool = [base, base + 128, base + 64, base + 192]
+        rng.shuffle(pool)
+        for i in range(min(nv, len(pool))):
+            if pool[i] not in labels[:i] and pool[i] not in labels[i + 1:]:
+                labels[i] = pool[i]
     return [(labels[a], labels[b]) for a, b in edges], labels[:nv], labels[nv:]
 
 
@@ -138,7 +148,7 @@ def graph_request(edges, weights, massive, ext, D):
 def face_basis(name, edges):
     """sparse (face) cycle bases for chain-like graphs: consecutive cycles share one edge, non-consecutive ones none"""
     n = len(edges)
-    if name in ("sunrise", "banana4", "banana5"):
+    if name in ("sunrise", "banana4", "banana5", "banana6"):
         L = n - 1
         S = [[0] * L for _ in range(n)]
         for i in range(L):
